@@ -147,7 +147,17 @@ def run(ctx, F, cg):
     ctx.rule("R35e", "the clause-pipeline form is substituted as well: substitute_params reads Query::clauses and its match over Clause has no wildcard arm and handles With / Where / Unwind / Return / Set")
     ctx.rule("R35f", "inventory of discarded evaluation errors in the executor: every site where the Err of an expression / predicate evaluation is dropped (unwrap_or, ok, ...) is a reviewed sort-key site; anywhere else a failing expression (or a leftover parameter) would silently change the rows")
     sp = F.fn("query::executor::substitute_params")
-    helpers = [sp] + [F.fns[c] for c in sp["calls"] if c in F.fns and c.startswith("samyama::query::executor::substitute_") and not c.endswith("substitute_expr")]
+    # substitute_params, its closures, and the substitute_* helpers they call (transitively; substitute_expr is R35b's)
+    helpers, work, seen_h = [], [sp["path"]], set()
+    while work:
+        hp = work.pop()
+        if hp in seen_h or hp not in F.fns:
+            continue
+        seen_h.add(hp)
+        hr_ = F.fns[hp]
+        helpers.append(hr_)
+        work.extend(hr_.get("closures") or [])
+        work.extend(c for c in hr_["calls"] if c.startswith("samyama::query::executor::substitute_") and not c.endswith("substitute_expr"))
     visited = set()
     for h in helpers:
         visited |= set(h["r"]) | set(h["w"])
